@@ -71,6 +71,9 @@ def run(run):
                 for j, look in enumerate(["SECOND.CQL", "x.Cql", "old.cql.bak", "notes.cqlx", ".cql", "cql", "dir.cql.d"]):
                     if (case + j) % 2 == 0 and look not in files:
                         files[look] = "look-alike %d of case %d" % (j, case)
+                # always, in every second ruleset: a zero-byte rule file (an empty text is a rule text like any other)
+                if case % 2 == 1:
+                    files["placeholder.cql"] = ""
                 # equal contents under different names (a rule copied under a second name, two empty files): the
                 # property speaks of the *multiset* of rule texts
                 if case % 2 == 0:
